@@ -19,6 +19,11 @@ type Subscription struct {
 	sub   Subscriber
 	field *Field
 	args  map[string]interface{}
+
+	// evType is the type of the events, the type of the subscription
+	// field. It is kept here and not on the field since the field is part
+	// of the parsed request which can be resolved more than once.
+	evType Type
 }
 
 // NewSubscription creates a new subscription. It should be called in a
@@ -32,5 +37,5 @@ func NewSubscription(sub Subscriber, field *Field, args map[string]interface{}) 
 }
 
 func (sub *Subscription) prep(root *Root) {
-	sub.field.ConType = root.getFieldType(sub.field.ConType, sub.field.Name)
+	sub.evType = root.getFieldType(sub.field.ConType, sub.field.Name)
 }
